@@ -387,6 +387,42 @@ theorem exec_one (i : Instr) (s : St) : exec [i] s = exec1 i s := by
 theorem exec_two (i j : Instr) (s : St) : exec [i, j] s = (exec1 i s).bind (exec1 j) := by
   simp [exec]
 
+/-! ### constant evaluation of branches -/
+
+theorem toSigned32_id (a : Int) (h : inS32 a) : toSigned32 a = a := by
+  unfold toSigned32 inS32 at *; omega
+
+theorem toUnsigned32_eq (a : Int) (h : inS32 a) : toUnsigned32 a = ((imm32 a).toNat : Int) := by
+  unfold toUnsigned32 imm32 inS32 at *
+  rw [BitVec.toNat_ofInt]
+  have h32 : ((2 ^ 32 : Nat) : Int) = 4294967296 := by decide
+  rw [h32]
+  have : 0 ≤ a % 4294967296 := Int.emod_nonneg _ (by omega)
+  rw [Int.toNat_of_nonneg this]
+  omega
+
+theorem slt_imm32 (a b : Int) (ha : inS32 a) (hb : inS32 b) : (imm32 a).slt (imm32 b) = decide (a < b) := by
+  simp only [BitVec.slt, toInt_imm32 a ha, toInt_imm32 b hb]
+
+theorem ult_imm32 (a b : Int) (ha : inS32 a) (hb : inS32 b) :
+    (imm32 a).ult (imm32 b) = decide (toUnsigned32 a < toUnsigned32 b) := by
+  simp only [BitVec.ult, toUnsigned32_eq a ha, toUnsigned32_eq b hb]
+  congr 1
+  simp
+
+theorem eq_imm32 (a b : Int) (ha : inS32 a) (hb : inS32 b) :
+    (imm32 a == imm32 b) = decide (toUnsigned32 a = toUnsigned32 b) := by
+  rw [toUnsigned32_eq a ha, toUnsigned32_eq b hb]
+  by_cases h : imm32 a = imm32 b
+  · simp [h]
+  · have : (imm32 a).toNat ≠ (imm32 b).toNat := fun e => h (BitVec.eq_of_toNat_eq e)
+    have h1 : (imm32 a == imm32 b) = false := by simp [h]
+    rw [h1]
+    symm
+    apply decide_eq_false
+    omega
+
+
 /-! ### `li` ranges, rule lookup -/
 
 theorem wrap32_liOk (v : Int) : liOk (wrap32 v) := by
